@@ -351,6 +351,18 @@ func (g *gen) cmd(depth int) Cmd {
 		for i, n := 0, g.r.Range(0, 4); i < n; i++ {
 			c.Seq = append(c.Seq, g.cmd(depth+1))
 		}
+		if g.p.li && len(c.Seq) > 0 && g.r.Chance(0.2) {
+			// what a table replicates from a leader that used to be a follower itself: one of the commands
+			// is a sequence again, and its commands carry the (small) indices of a third log
+			in := Cmd{T: "seq"}
+			for i, n := 0, g.r.Range(1, 3); i < n; i++ {
+				sub := g.cmd(depth + 1)
+				v := uint64(g.r.Range(1, 6))
+				sub.LI = &v
+				in.Seq = append(in.Seq, sub)
+			}
+			c.Seq[g.r.Intn(len(c.Seq))] = in
+		}
 	default:
 		c = Cmd{T: "dummy"}
 	}
@@ -366,7 +378,7 @@ func (g *gen) cmd(depth int) Cmd {
 				li = 0 // Reset-style
 			}
 			c.LI = &li
-			if c.T == "seq" && li > 0 && g.r.Chance(0.6) {
+			if c.T == "seq" && li >= uint64(len(c.Seq)) && g.r.Chance(0.6) {
 				// as the replication worker builds it: every command of the sequence carries its own leader
 				// index, consecutive, the last one being the sequence's; a sequence longer than the step
 				// the leader index took reaches back into what earlier sequences replicated
@@ -418,6 +430,16 @@ func (g *gen) applyStep(steps *[]Step, rep int, n int) {
 	}
 	g.pos[rep] += n
 	*steps = append(*steps, st)
+}
+
+// GenAs draws schedules of profile prop for the check of property reportAs.
+func GenAs(prop, reportAs string) func(r *core.Rand, tier string) core.Schedule {
+	g := Gen(prop)
+	return func(r *core.Rand, tier string) core.Schedule {
+		s := g(r, tier).(*Sched)
+		s.Cfg.ReportAs = reportAs
+		return s
+	}
 }
 
 // Gen draws a schedule for the given property profile.
